@@ -101,64 +101,79 @@ theorem splitUtf8Start_sound {e : Encoding} (EL : e.Lawful) (cap : Nat) (pending
 
 /-! ### `feed_text` -/
 
+/-- first byte not yet reported in any chunk when `feed_text(start, ..)` is entered
+(`unreported_bytes_start`, text_decoder.rs:66-72) -/
+def TD.unrep {c : Codec} (td : TD c) (start : Nat) : Nat :=
+  if td.pending.isSome then td.pendingStart else start
+
 /-- What one `feed_text` call guarantees. -/
 structure FeedOk (e : Encoding) (td : TD e.codec) (start : Nat) (raw : Bytes) (last : Bool)
     (more : Bytes) (td' : TD e.codec) (cs : List Chunk) : Prop where
   text : e.codec.tail td.cur (raw ++ more)
           = chunksText cs ++ (if last = true then [] else e.codec.tail td'.cur more)
-  ranges : rangesOrdered start cs (start + raw.length)
+  /-- the chunks tile the bytes from the first unreported one up to the end of the input (`last`) or
+  up to the bytes the decoder still holds back -/
+  ranges : rangesContiguous (td.unrep start) cs
+            (if last = true then start + raw.length else td'.pendingStart)
   flags : if last = true then oneLastAtEnd cs (start + raw.length) ∧ td'.pending = none
-          else noneLast cs ∧ td'.pending.isSome = true ∧ td'.pendingStart = start + raw.length
+          else noneLast cs ∧ td'.pending.isSome = true ∧ td'.pendingStart ≤ td'.pendingEnd ∧
+            td'.pendingEnd = start + raw.length
 
 section
 variable {e : Encoding} (pol : Policy e.codec)
 
 theorem feedSlow_ok (EL : e.Lawful) (cap : Nat) (hcap : 4 ≤ cap) (td : TD e.codec) (last : Bool)
-    (more : Bytes) (hm : last = true → more = []) (pre : List Chunk) (pos : Nat) (rest : Bytes) :
-    ∃ td' cs, feedSlow e pol cap td last pre pos rest = some (td', pre ++ cs) ∧
+    (more : Bytes) (hm : last = true → more = []) (pre : List Chunk) (pos unrep : Nat)
+    (hup : unrep ≤ pos) (rest : Bytes) :
+    ∃ td' cs, feedSlow e pol cap td last pre pos unrep rest = some (td', pre ++ cs) ∧
       e.codec.tail td.cur (rest ++ more)
           = chunksText cs ++ (if last = true then [] else e.codec.tail td'.cur more) ∧
-      rangesOrdered pos cs (pos + rest.length) ∧
+      rangesContiguous unrep cs (if last = true then pos + rest.length else td'.pendingStart) ∧
       (if last = true then oneLastAtEnd cs (pos + rest.length) ∧ td'.pending = none
-       else noneLast cs ∧ td'.pending.isSome = true ∧ td'.pendingStart = pos + rest.length) := by
+       else noneLast cs ∧ td'.pending.isSome = true ∧ td'.pendingStart ≤ td'.pendingEnd ∧
+         td'.pendingEnd = pos + rest.length) := by
   unfold feedSlow
-  have htot := feedLoop_total pol EL.codec cap hcap last (feedFuel rest) td.cur rest pos
+  have htot := feedLoop_total pol EL.codec cap hcap last (feedFuel rest) td.cur rest pos unrep
     (by have := mu_le e.codec td.cur rest; simp only [feedFuel]; omega)
-  change (feedLoop e.codec pol cap last (feedFuel rest) td.cur rest pos).isSome = true at htot
-  cases hl : feedLoop e.codec pol cap last (feedFuel rest) td.cur rest pos with
+  cases hl : feedLoop e.codec pol cap last (feedFuel rest) td.cur rest pos unrep with
   | none => rw [hl] at htot; simp at htot
   | some v =>
-    obtain ⟨s', stop, cs⟩ := v
-    obtain ⟨i1, i2, i3, i4⟩ := feedLoop_sound pol EL.codec cap last more hm _ _ _ _ _ _ _ hl
+    obtain ⟨s', next, u, cs⟩ := v
+    obtain ⟨i1, i2, i3, i4, i5⟩ := feedLoop_sound pol EL.codec cap last more hm _ _ _ _ _ _ _ _ _ hup hl
     refine ⟨_, cs, rfl, ?_, ?_, ?_⟩
     · rw [i1]
       cases last <;> simp [TD.cur]
-    · rw [← i2]; exact i3
     · cases last with
-      | true => simp only [if_true] at i4 ⊢; rw [← i2]; exact ⟨i4, trivial⟩
-      | false => simp only [Bool.false_eq_true, if_false] at i4 ⊢; exact ⟨i4, rfl, i2⟩
+      | true => simp only [if_true] at i5 ⊢; rw [← i2, ← i5.2]; exact i3
+      | false => simp only [Bool.false_eq_true, if_false]; exact i3
+    · cases last with
+      | true => simp only [if_true] at i5 ⊢; rw [← i2]; exact ⟨i5.1, trivial⟩
+      | false => simp only [Bool.false_eq_true, if_false] at i5 ⊢; exact ⟨i5, rfl, i4, i2⟩
 
-/-- `feed_text` never runs out of fuel and satisfies `FeedOk` — with or without the fast path. -/
+/-- `feed_text` never runs out of fuel and satisfies `FeedOk` — with or without the fast path —
+provided the bytes not yet reported start no later than this call's span. -/
 theorem feedTextWith_ok (EL : e.Lawful) (cap : Nat) (hcap : 4 ≤ cap) (fast : Bool)
     (td : TD e.codec) (start : Nat) (raw : Bytes) (last : Bool) (more : Bytes)
-    (hm : last = true → more = []) :
+    (hm : last = true → more = []) (hup : td.unrep start ≤ start) :
     ∃ td' cs, feedTextWith fast e pol cap td start raw last = some (td', cs) ∧
       FeedOk e td start raw last more td' cs := by
   unfold feedTextWith
   cases hsp : (if fast = true then splitUtf8Start e.utf8 cap td.pending.isSome raw else none) with
   | none =>
-    obtain ⟨td', cs, h1, h2, h3, h4⟩ := feedSlow_ok pol EL cap hcap td last more hm [] start raw
-    exact ⟨td', cs, by simpa using h1, ⟨h2, h3, h4⟩⟩
+    obtain ⟨td', cs, h1, h2, h3, h4⟩ :=
+      feedSlow_ok pol EL cap hcap td last more hm [] start (td.unrep start) hup raw
+    exact ⟨td', cs, by simpa [TD.unrep] using h1, ⟨h2, h3, h4⟩⟩
   | some v =>
     obtain ⟨text, n, rest⟩ := v
     have hsp' : splitUtf8Start e.utf8 cap td.pending.isSome raw = some (text, n, rest) := by
       cases fast <;> simp_all
     obtain ⟨hpend, hn, hrest, hrun⟩ := splitUtf8Start_sound EL cap _ raw text n rest hsp'
-    have hcur : td.cur = e.codec.init := by
-      unfold TD.cur
+    have hpn : td.pending = none := by
       cases hp : td.pending with
       | none => rfl
       | some s => simp [hp] at hpend
+    have hcur : td.cur = e.codec.init := by simp [TD.cur, hpn]
+    have hun : td.unrep start = start := by simp [TD.unrep, hpn]
     have hraw : raw = raw.take n ++ rest := by rw [hrest, List.take_append_drop]
     have hlen : raw.length = n + rest.length := by
       rw [hrest, List.length_drop]; omega
@@ -175,24 +190,22 @@ theorem feedTextWith_ok (EL : e.Lawful) (cap : Nat) (hcap : 4 ≤ cap) (fast : B
       subst hl
       have : more = [] := hm rfl
       subst this hre
+      simp only [List.length_nil, Nat.add_zero] at hlen
       refine ⟨td, _, rfl, ⟨?_, ?_, ?_⟩⟩
       · rw [htail]; simp [chunksText, Codec.tail_nil, EL.codec.flush_init]
-      · simp only [rangesOrdered]; simp at hlen; omega
+      · simp only [if_true, hun, rangesContiguous, hlen]
+        exact ⟨trivial, Nat.le_add_right _ _, trivial⟩
       · simp only [if_true]
-        refine ⟨⟨[], _, rfl, rfl, by simp at hlen; simp [hlen], by intro x hx; cases hx⟩, ?_⟩
-        cases hp : td.pending with
-        | none => rfl
-        | some s => simp [hp] at hpend
+        exact ⟨⟨[], _, rfl, rfl, by simp [hlen], by intro x hx; cases hx⟩, hpn⟩
     · simp only [hrl, Bool.false_eq_true, if_false]
-      have hrl' : (last && rest.isEmpty) = false := by simpa using hrl
       obtain ⟨td', cs, h1, h2, h3, h4⟩ :=
         feedSlow_ok pol EL cap hcap td last more hm
-          [⟨text, false, start, start + n⟩] (start + n) rest
+          [⟨text, false, start, start + n⟩] (start + n) (start + n) (Nat.le_refl _) rest
       refine ⟨td', _, h1, ⟨?_, ?_, ?_⟩⟩
       · rw [htail, ← hcur, h2]; simp [chunksText]
-      · simp only [List.singleton_append, rangesOrdered]
-        refine ⟨Nat.le_refl _, by omega, ?_⟩
-        rw [hlen, ← Nat.add_assoc]; exact h3
+      · rw [hun, hlen, ← Nat.add_assoc]
+        simp only [List.singleton_append, rangesContiguous]
+        exact ⟨trivial, Nat.le_add_right _ _, h3⟩
       · have hn1 : noneLast [(⟨text, false, start, start + n⟩ : Chunk)] := by
           intro x hx; simp at hx; subst hx; rfl
         rw [hlen, ← Nat.add_assoc]
@@ -209,43 +222,50 @@ end
 section
 variable {e : Encoding} (pol : Policy e.codec)
 
+/-- Consecutive non-final feeds (each span starts where the previous one ended). -/
 theorem feedsWith_ok (EL : e.Lawful) (cap : Nat) (hcap : 4 ≤ cap) (fast : Bool) (more : Bytes) :
-    ∀ (parts : List Bytes) (td : TD e.codec) (start : Nat),
+    ∀ (parts : List Bytes) (td : TD e.codec) (start : Nat), td.unrep start ≤ start →
     ∃ td' cs, feedsWith fast e pol cap td start parts = some (td', cs) ∧
       e.codec.tail td.cur (parts.flatten ++ more) = chunksText cs ++ e.codec.tail td'.cur more ∧
-      rangesOrdered start cs (start + parts.flatten.length) ∧
+      rangesContiguous (td.unrep start) cs (td'.unrep (start + parts.flatten.length)) ∧
+      td'.unrep (start + parts.flatten.length) ≤ start + parts.flatten.length ∧
       noneLast cs ∧
-      (parts ≠ [] → td'.pending.isSome = true ∧ td'.pendingStart = start + parts.flatten.length) := by
+      (parts ≠ [] → td'.pending.isSome = true ∧ td'.pendingEnd = start + parts.flatten.length) := by
   intro parts
   induction parts with
   | nil =>
-    intro td start
-    exact ⟨td, [], rfl, by simp [chunksText], by simp [rangesOrdered], noneLast_nil, by simp⟩
+    intro td start hup
+    exact ⟨td, [], rfl, by simp [chunksText], by simp [rangesContiguous], by simpa using hup,
+      noneLast_nil, by simp⟩
   | cons p ps ih =>
-    intro td start
+    intro td start hup
     obtain ⟨td1, cs1, h1, ok1⟩ := feedTextWith_ok pol EL cap hcap fast td start p false
-      (ps.flatten ++ more) (by simp)
-    obtain ⟨td2, cs2, h2, t2, r2, n2, p2⟩ := ih td1 (start + p.length)
+      (ps.flatten ++ more) (by simp) hup
     have f1 := ok1.flags
-    simp only [Bool.false_eq_true, if_false] at f1
-    refine ⟨td2, cs1 ++ cs2, ?_, ?_, ?_, noneLast_append f1.1 n2, ?_⟩
+    have r1 := ok1.ranges
+    simp only [Bool.false_eq_true, if_false] at f1 r1
+    obtain ⟨fn, fp, fle, fend⟩ := f1
+    have hun1 : td1.unrep (start + p.length) = td1.pendingStart := by simp [TD.unrep, fp]
+    obtain ⟨td2, cs2, h2, t2, r2, le2, n2, p2⟩ := ih td1 (start + p.length) (by rw [hun1, ← fend]; exact fle)
+    have hlen : start + (p :: ps).flatten.length = start + p.length + ps.flatten.length := by
+      simp [Nat.add_assoc]
+    refine ⟨td2, cs1 ++ cs2, ?_, ?_, ?_, ?_, noneLast_append fn n2, ?_⟩
     · simp only [feedsWith, h1, h2]
     · have := ok1.text
       simp only [Bool.false_eq_true, if_false] at this
       rw [List.flatten_cons, List.append_assoc, this, t2, chunksText_append, List.append_assoc]
-    · apply rangesOrdered_append ok1.ranges
-      simp only [List.flatten_cons, List.length_append, ← Nat.add_assoc]
-      exact r2
+    · rw [hlen]
+      apply rangesContiguous_append r1
+      rw [← hun1]; exact r2
+    · rw [hlen]; exact le2
     · intro _
+      rw [hlen]
       cases ps with
       | nil =>
         simp only [feedsWith, Option.some.injEq, Prod.mk.injEq] at h2
         obtain ⟨rfl, rfl⟩ := h2
-        simpa using f1.2
-      | cons q qs =>
-        have := p2 (by simp)
-        simp only [List.flatten_cons, List.length_append, ← Nat.add_assoc] at this ⊢
-        exact this
+        simpa using ⟨fp, fend⟩
+      | cons q qs => exact p2 (by simp)
 
 /-- A whole text node (at least one `feed_text` call, then `flush_pending`). -/
 theorem textNodeWith_ok (EL : e.Lawful) (cap : Nat) (hcap : 4 ≤ cap) (fast : Bool) (start : Nat)
@@ -253,12 +273,15 @@ theorem textNodeWith_ok (EL : e.Lawful) (cap : Nat) (hcap : 4 ≤ cap) (fast : B
     ∃ cs, textNodeWith fast e pol cap start parts = some cs ∧
       chunksText cs = e.codec.decodeAll parts.flatten ∧
       oneLastAtEnd cs (start + parts.flatten.length) ∧
-      rangesOrdered start cs (start + parts.flatten.length) := by
-  obtain ⟨td, cs, h1, t1, r1, n1, p1⟩ :=
-    feedsWith_ok pol EL cap hcap fast [] parts (TD.new e.codec) start
-  obtain ⟨hp, hps⟩ := p1 hne
+      rangesContiguous start cs (start + parts.flatten.length) := by
+  obtain ⟨td, cs, h1, t1, r1, le1, n1, p1⟩ :=
+    feedsWith_ok pol EL cap hcap fast [] parts (TD.new e.codec) start (by simp [TD.unrep, TD.new])
+  obtain ⟨hp, hpe⟩ := p1 hne
+  have hun : td.unrep (start + parts.flatten.length) = td.pendingStart := by simp [TD.unrep, hp]
+  have hun' : td.unrep td.pendingEnd = td.pendingStart := by simp [TD.unrep, hp]
   obtain ⟨td', cs', h2, ok2⟩ :=
-    feedTextWith_ok pol EL cap hcap fast td td.pendingStart [] true [] (by simp)
+    feedTextWith_ok pol EL cap hcap fast td td.pendingEnd [] true [] (by simp)
+      (by rw [hun', hpe, ← hun]; exact le1)
   have f2 := ok2.flags
   have t2 := ok2.text
   have r2 := ok2.ranges
@@ -267,9 +290,11 @@ theorem textNodeWith_ok (EL : e.Lawful) (cap : Nat) (hcap : 4 ≤ cap) (fast : B
   · simp only [textNodeWith, h1, flushPendingWith, hp, if_true, h2]
   · rw [Codec.decodeAll_eq, chunksText_append, ← t2]
     simpa [TD.cur, TD.new] using t1.symm
-  · rw [← hps]; exact oneLastAtEnd_prepend n1 f2.1
-  · apply rangesOrdered_append r1
-    rw [← hps]; exact r2
+  · rw [← hpe]; exact oneLastAtEnd_prepend n1 f2.1
+  · have r1' : rangesContiguous start cs td.pendingStart := by
+      have := r1; rw [hun] at this; simpa [TD.unrep, TD.new] using this
+    apply rangesContiguous_append r1'
+    rw [← hpe, ← hun']; exact r2
 
 end
 
